@@ -543,10 +543,39 @@ func (cx *Ctx) firstElemHelper(v ssa.Value) (*ssa.Call, string) {
 			lists = append(lists, p)
 		}
 	}
-	if len(lists) != 1 {
+	var list ssa.Value
+	if len(lists) == 1 {
+		list = lists[0]
+	} else if len(lists) == 0 {
+		// the helper is handed the object that holds the list (`firstLocation(sp)`): the one slice it indexes, read
+		// from a field path of a parameter
+		seenL := map[string]ssa.Value{}
+		for _, b := range h.Blocks {
+			for _, in := range b.Instrs {
+				var x ssa.Value
+				switch y := in.(type) {
+				case *ssa.IndexAddr:
+					x = y.X
+				case *ssa.Index:
+					x = y.X
+				}
+				if x == nil {
+					continue
+				}
+				if _, isSl := x.Type().Underlying().(*types.Slice); isSl && fx.path(x) != "" {
+					seenL[fx.path(x)] = x
+				}
+			}
+		}
+		if len(seenL) != 1 {
+			return nil, ""
+		}
+		for _, v := range seenL {
+			list = v
+		}
+	} else {
 		return nil, ""
 	}
-	list := lists[0]
 	aps, ok := fx.atomPaths(h, 1024)
 	if !ok {
 		return call, "too many paths in " + cx.W.FuncKey(h)
@@ -597,13 +626,16 @@ func (cx *Ctx) firstElemHelper(v ssa.Value) (*ssa.Call, string) {
 }
 
 // elemListIs: the element address / value v indexes the given slice parameter.
-func elemListIs(v ssa.Value, list *ssa.Parameter) bool {
+func elemListIs(v ssa.Value, list ssa.Value) bool {
+	same := func(a ssa.Value) bool {
+		return a == list || gFacts != nil && gFacts.path(a) != "" && gFacts.path(a) == gFacts.path(list)
+	}
 	for i := 0; i < 6; i++ {
 		switch x := v.(type) {
 		case *ssa.IndexAddr:
-			return x.X == ssa.Value(list)
+			return same(x.X)
 		case *ssa.Index:
-			return x.X == ssa.Value(list)
+			return same(x.X)
 		case *ssa.UnOp:
 			v = x.X
 		default:
